@@ -4,7 +4,8 @@
 // others wait in a collective, or a rank that waits longer than the watchdog is reported as the
 // deadlock it would be under real MPI.  Values are copied between ranks (serialisation is bypassed:
 // assumption; the real mpiexec replay exercises it).  reduce: left-to-right in rank order, or - for
-// operators declared commutative through is_commutative - a seeded order.
+// operators declared commutative through is_commutative - a seeded order.  Point-to-point send / recv: buffered mailboxes per
+// (source, destination, tag).
 #ifndef VP_MPI_MODEL_HPP
 #define VP_MPI_MODEL_HPP
 #include <vector>
@@ -14,6 +15,10 @@
 #include <string>
 #include <stdexcept>
 #include <algorithm>
+#include <map>
+#include <deque>
+#include <tuple>
+#include <memory>
 #include <boost/mpl/bool.hpp>
 
 #define VP_MPI_CONTRACT_MODEL 1
@@ -62,10 +67,34 @@ struct vp_world {
         }
         if (failed) throw vp_deadlock(failure);
     }
+    // point-to-point: send is buffered (an eager standard-mode send: it never blocks - deadlocks that need a rendez-vous send are NOT
+    // modelled), recv blocks until a message from that source with that tag is there; waiting for a rank that has returned, or longer
+    // than the watchdog, is the deadlock it would be under real MPI
+    std::map<std::tuple<int, int, int>, std::deque<std::shared_ptr<void>>> mail;
+    template<class T> void p2p_send(int src, int dst, int tag, const T &v) {
+        std::unique_lock<std::mutex> lk(m);
+        if (failed) throw vp_deadlock(failure);
+        if (dst < 0 || dst >= P) { fail("send to rank " + std::to_string(dst) + " outside the communicator"); throw vp_deadlock(failure); }
+        mail[std::make_tuple(src, dst, tag)].push_back(std::make_shared<T>(v));
+        cv.notify_all();
+    }
+    template<class T> void p2p_recv(int src, int dst, int tag, T &v) {
+        std::unique_lock<std::mutex> lk(m);
+        if (src < 0 || src >= P) { fail("recv from rank " + std::to_string(src) + " outside the communicator"); throw vp_deadlock(failure); }
+        auto key = std::make_tuple(src, dst, tag);
+        auto deadline = std::chrono::steady_clock::now() + std::chrono::milliseconds(watchdog_ms);
+        while (mail[key].empty() && !failed) {
+            if (finished[src]) { fail("rank " + std::to_string(dst) + " waits in recv for rank " + std::to_string(src) + ", which has returned without sending"); break; }
+            if (cv.wait_until(lk, deadline) == std::cv_status::timeout && mail[key].empty()) { fail("watchdog: rank " + std::to_string(dst) + " waited in recv(source " + std::to_string(src) + ", tag " + std::to_string(tag) + ")"); break; }
+        }
+        if (failed) throw vp_deadlock(failure);
+        v = *std::static_pointer_cast<T>(mail[key].front()); mail[key].pop_front();
+    }
     void rank_returned(int rank) {
         std::unique_lock<std::mutex> lk(m);
         finished[rank] = 1;
         if (arrived > 0) fail("rank " + std::to_string(rank) + " returned while " + std::to_string(arrived) + " rank(s) wait in a collective");
+        cv.notify_all();      // wake receivers waiting for this rank
     }
 };
 
@@ -76,6 +105,8 @@ public:
     int rank() const { return rank_; }
     int size() const { return w_->P; }
     vp_world* vp() const { return w_; }
+    template<class T> void send(int dest, int tag, const T &value) const { w_->p2p_send<T>(rank_, dest, tag, value); }
+    template<class T> void recv(int source, int tag, T &value) const { w_->p2p_recv<T>(source, rank_, tag, value); }
 private:
     vp_world *w_; int rank_;
 };
